@@ -270,7 +270,10 @@ def compute_landmarks(x, gp_type=None, n_landmarks=DEFAULT_N_LANDMARKS):
         return None
     n = x.shape[0]
     x = ensure_2d(x)
-    assert n_landmarks > 1, "n_landmarks musst be larger 1 or euqual to 0"
+    if n_landmarks <= 1:
+        message = "n_landmarks musst be larger 1 or euqual to 0"
+        logger.error(message)
+        raise ValueError(message)
     if n_landmarks >= n:
         if gp_type == GaussianProcessType.FIXED:
             message = (
